@@ -172,7 +172,11 @@ def cases(big, rng):
         peer = ["o%d" % pctl, "s%d:000400" % pctl]
         goaway = "s%d:070100" % pctl
         later = [[], [call], [call, call], [I["S"]], [call, I["S"], call], [I["S"], I["S"], call]]
-        all_errs = CONN_ERRS + STREAM_ERRS
+        conn_errs, stream_errs = list(CONN_ERRS), list(STREAM_ERRS)
+        if big:
+            conn_errs += ["C258", "C%d" % (2**62 - 1)]
+            stream_errs += ["X0", "X%d" % (2**62 - 1)]
+        all_errs = conn_errs + stream_errs
         for g in (0, 1):
             add(line(role, g, [B, call]))
             # ---- (a) faults during the setup: every call of ConnectionInner::new x every error
@@ -181,7 +185,7 @@ def cases(big, rng):
             for site in setup_sites:
                 for e in all_errs:
                     for tail in later:
-                        if g == 1 and site in ("ou1", "ou2") and e in STREAM_ERRS:
+                        if g == 1 and site in ("ou1", "ou2") and e in stream_errs:
                             continue    # the grease stream would not be the fourth stream
                         add(line(role, g, ["!%s:%s" % (site, e), B] + tail))
                         # with the peer's streams already there when the connection is built
@@ -207,7 +211,7 @@ def cases(big, rng):
             add(line(role, g, [B, "x%d:7" % I["ctl"], I["S"], call, I["S"]]))
             add(line(role, g, [B, "x%d:7" % I["enc"], I["S"], call]))
             # ---- (b) the transport fails at poll_accept_recv / poll_accept_bidi / a read
-            for e in CONN_ERRS:
+            for e in conn_errs:
                 for site in ("au", "ab"):
                     for pre in ([], peer):
                         add(line(role, g, [B] + pre + ["!%s:%s" % (site, e), call, call, I["S"]]))
@@ -238,13 +242,13 @@ def cases(big, rng):
                     add(line(role, g, [B, "o%d" % sid, call, call]))
                     add(line(role, g, [B] + peer + ["o%d" % sid, call, call]))
                     add(line(role, g, [B] + peer + [call, "o%d" % sid, "o%d" % (sid + 4), call]))
-                    for e in CONN_ERRS:
+                    for e in conn_errs:
                         add(line(role, g, [B, "o%d" % sid, "!ab:%s" % e, call, call]))
                         add(line(role, g, [B, "o%d" % sid, "!au:%s" % e, call, call]))
                         add(line(role, g, [B, call, "!ab:%s" % e, "o%d" % sid, call]))
         # ---- (c) the grease stream's calls answer a connection error
         for site in ("ou3", "sd%d" % I["g"], "pr%d" % I["g"], "pf%d" % I["g"]):
-            for e in CONN_ERRS + STREAM_ERRS:
+            for e in all_errs:
                 f = "!%s:%s" % (site, e)
                 add(line(role, 1, [B, f] + peer + [call, call, I["S"]]))
                 add(line(role, 1, [B, call, f] + peer + [goaway, call]))
